@@ -109,17 +109,31 @@ def inDomain (p : TP F) (orig : F) : Bool :=
     (match a with | some a => a ≤ orig | none => true) &&
     (match b with | some b => orig ≤ b | none => true)
 
+/-- which difference quotient of the first derivative is compared with the second derivative at the
+coordinate `x`: the central one, except for a half-line transform when the junction `0` lies within
+`[x-h, x+h]` — there `d1` is not differentiable (`r_d2_not_derivative_at_junction`) and what the code
+returns is the *right* derivative (`r_d2_is_right_derivative`, `chain_rule_2_right`): the forward
+quotient over `[x, x+h]` for `x ≥ 0`; for `x < 0` the backward quotient over `[x-h, x]`, on which `d1`
+is smooth.  `0` = central, `1` = forward, `-1` = backward.  Nothing is skipped. -/
+def fdSide (p : TP F) (x h : F) : Int :=
+  match p with
+  | .r _ => if x - h ≤ 0.0 && 0.0 ≤ x + h then (if x ≥ 0.0 then 1 else -1) else 0
+  | _ => 0
+
+def quot2 (side : Int) (am a0 ap h : F) : F :=
+  if side == 1 then (ap - a0) / h else if side == -1 then (a0 - am) / h else (ap - am) / (2.0 * h)
+
 /-- `mag`: magnitude of the data entering `g` (bounds, values): the rounding error of `g` is a few
 ulps of it (cancellation in `tanh + 1` is amplified by the width of the interval) -/
-def fdOk (gm g0 gp am a0 ap bm b0 bp h s mag : F) (second : Bool) : String :=
+def fdOk (gm g0 gp am a0 ap bm b0 bp h s mag : F) (side : Int) : String :=
   if !([gm, g0, gp, am, a0, ap, bm, b0, bp].all finite) then "-" else
   let q1 := (gp - gm) / (2.0 * h)
   let tol1 := 1e-3 * (fabs am + fabs a0 + fabs ap) + 16.0 * eps * fmax mag (fmax (fabs gm) (fabs gp)) / h + absFloor
   if !(fabs (q1 - a0) ≤ tol1) then "FAIL:d1_is_derivative" else
-  let q2 := (ap - am) / (2.0 * h)
+  let q2 := quot2 side am a0 ap h
   let tol2 := 1e-3 * ((fabs bm + fabs b0 + fabs bp) + (fabs am + fabs a0 + fabs ap) / fabs s)
-    + 16.0 * eps * fmax (fabs am) (fabs ap) / h + absFloor
-  if second && !(fabs (q2 - b0) ≤ tol2) then "FAIL:d2_is_derivative" else "ok"
+    + 32.0 * eps * fmax (fabs am) (fmax (fabs a0) (fabs ap)) / h + absFloor
+  if !(fabs (q2 - b0) ≤ tol2) then "FAIL:d2_is_derivative" else "ok"
 
 /-! ### the machine -/
 
@@ -335,9 +349,9 @@ def probe3 (f : Fn F) (w : Wr F) (n : Nat) (x h : F) :
 
 def wD1 (c : Ctx) (w : W F) (i : Nat) : F := (Reparam.d1 pi c.df w i).getD nan
 def wD2 (c : Ctx) (w : W F) (i : Nat) : F := (Reparam.d2 pi c.df c.d2f w i).getD nan
-def wD2x (c : Ctx) (w : W F) (i j : Nat) : F := (Reparam.d2x pi c.d2f w i j).getD nan
+def wD2x (c : Ctx) (w : W F) (i j : Nat) : F := (Reparam.d2x pi c.df c.d2f w i j).getD nan
 
-/-- finite-difference shadow of `chain_rule_1` / `chain_rule_2` for coordinate `i` -/
+/-- finite-difference shadow of `chain_rule_1` / `chain_rule_2_partial` + `chain_rule_2_right` for coordinate `i` -/
 def wfdOk (c : Ctx) (w0 : W F) (i : Nat) (h : F) (vals : List F) (second2 : Bool := true) : String :=
   match vals, w0[i]? with
   | [fm, f0, fp, am, a0, ap, b0], some s =>
@@ -352,13 +366,11 @@ def wfdOk (c : Ctx) (w0 : W F) (i : Nat) (h : F) (vals : List F) (second2 : Bool
     let tol1 := 1e-3 * (fabs am + fabs a0 + fabs ap) + 4.0 * h * h / (sc * sc) * d2fi * t1 * t1 * sc
       + 32.0 * eps * (c.mag p + fmax (fabs fm) (fmax (fabs f0) (fabs fp)) + magI * dfi) / h + absFloor
     if !(fabs (q1 - a0) ≤ tol1) then "FAIL:chain_rule_1" else
-    let second := match s.tp with
-      | .r t => !(t.x - h ≤ 0.0 && 0.0 ≤ t.x + h)
-      | _ => true
-    let q2 := (ap - am) / (2.0 * h)
+    -- at the junction of a half-line transform: the one-sided quotient (`fdSide`, `chain_rule_2_right`)
+    let q2 := quot2 (fdSide s.tp s.tp.x h) am a0 ap h
     let tol2 := 1e-3 * (fabs b0 + d2fi * t1 * t1 + 2.0 * dfi * t1 / sc)
-      + 32.0 * eps * (fmax (fabs am) (fabs ap) + magI * d2fi * t1 + magI * dfi / sc) / h + absFloor
-    if second2 && second && !(fabs (q2 - b0) ≤ tol2) then "FAIL:chain_rule_2" else "ok"
+      + 64.0 * eps * (fmax (fabs am) (fmax (fabs a0) (fabs ap)) + magI * d2fi * t1 + magI * dfi / sc) / h + absFloor
+    if second2 && !(fabs (q2 - b0) ≤ tol2) then "FAIL:chain_rule_2" else "ok"
   | _, _ => "FAIL:parse"
 
 def wfdxOk (c : Ctx) (w0 : W F) (i j : Nat) (h : F) (vals : List F) : String :=
@@ -571,7 +583,7 @@ def oD1 (cs : List (Coef F)) (f : Fn F) (w : Wr F) (n : Nat) : F :=
 def oD2 (cs : List (Coef F)) (f : Fn F) (w : Wr F) (n : Nat) : F :=
   match w.d2 pi (polyDfE cs) (polyD2fE cs) f n with | .ok x => x | .error _ => nan
 def oD2x (cs : List (Coef F)) (f : Fn F) (w : Wr F) (n m : Nat) : F :=
-  match w.d2x pi (polyD2fE cs) f n m with | .ok x => x | .error _ => nan
+  match w.d2x pi (polyDfE cs) (polyD2fE cs) f n m with | .ok x => x | .error _ => nan
 
 /-- a derivative with respect to a parameter the wrapper has is defined (`obj_chain_rule_*`: the
 model returns a value): an exception of the implementation there is a failing input -/
@@ -695,11 +707,8 @@ def step (s : St) (op : List String) (impl : Option (List String)) : St × Strin
             match fls? t with
             | some [gm, g0, gp, am, a0, ap, bm, b0, bp] =>
               if !inScope p || !(h > 0.0) then "-" else
-              -- the half-line transform is C^1 but not C^2 at x = 0 (`r_d2_is_derivative` needs x ≠ 0)
-              let second := match p with
-                | .r _ => !(x - h ≤ 0.0 && 0.0 ≤ x + h)
-                | _ => true
-              fdOk gm g0 gp am a0 ap bm b0 bp h (tpScale p) (2.0 * magnitude p g0) second
+              -- the half-line transform is C^1 but not C^2 at x = 0: one-sided quotient there (`fdSide`)
+              fdOk gm g0 gp am a0 ap bm b0 bp h (tpScale p) (2.0 * magnitude p g0) (fdSide p x h)
             | _ => "FAIL:parse"
           | none => "-"
         ({ s with t := s.t.set! k (some p0) }, out, verdict)
@@ -817,6 +826,15 @@ def step (s : St) (op : List String) (impl : Option (List String)) : St × Strin
         | none => "-"
       (s, v ++ " ; " ++ v ++ " ; 1 ; " ++ shs f.vals, verdict)
     | none => (s, "bad-op", "-")
+  | ["w.d21", i] =>
+    -- the one-argument overload `getSecondOrderDerivative(variable)`
+    match getW s s.cur, nat? i with
+    | some (_, cls, w, f, cs), some i =>
+      if cls < 2 || i ≥ f.ps.length then (s, "bad-op", "-") else
+      match w.d2 pi (polyDfE cs) (polyD2fE cs) f i with
+      | .ok x => (s, sh x, derivDefined impl)
+      | .error e => (dropAll s, excStr e, "-")
+    | _, _ => (s, "bad-op", "-")
   | ["w.d1", i] =>
     match getW s s.cur, nat? i with
     | some (_, cls, w, f, cs), some i =>
@@ -912,9 +930,20 @@ def step (s : St) (op : List String) (impl : Option (List String)) : St × Strin
       match getW s s.cur, nat? k, nat? j with
       | some (_, cls, w, f, cs), some i, some j =>
         if cls < 2 || i ≥ f.ps.length || j ≥ f.ps.length then (s, "bad-op", "-") else
-        let r := if i == j then w.d2 pi (polyDfE cs) (polyD2fE cs) f i else w.d2x pi (polyD2fE cs) f i j
-        match r with
-        | .ok x => (s, sh x, derivDefined impl)
+        -- always the two-argument overload, also for the same variable twice: there it must be the
+        -- second derivative the one-argument overload returns (`chain_rule_2_diag`)
+        match w.d2x pi (polyDfE cs) (polyD2fE cs) f i j with
+        | .ok x =>
+          let verdict :=
+            if i == j then
+              match impl, w.d2 pi (polyDfE cs) (polyD2fE cs) f i with
+              | some [t], .ok one =>
+                (match fl? t with
+                | some v => if closeRel v one then "ok" else "FAIL:chain_rule_2_diag"
+                | none => derivDefined impl)
+              | _, _ => derivDefined impl
+            else derivDefined impl
+          (s, sh x, verdict)
         | .error e => (dropAll s, excStr e, "-")
       | _, _, _ => (s, "bad-op", "-")
     else if o == "w.fd" || o == "w.fd1" then
